@@ -78,6 +78,9 @@ func checkC12(c *Ctx) {
 	// a register per variable: each definition maps to its own file, opened in append mode only for append writes
 	c.ruleWriteShape()
 	c.ruleArgMapping()
+	// writing a prepared value does not use it up: the same value can be written again
+	c.rulePure([]string{"efi/signature.(efibytes).Marshal", "efi/signature.(efibytes).Bytes", "efivarfs.(efibytes).Marshal", "efivarfs.(efibytes).Bytes", "efi/signature.(*SignatureDatabase).Marshal"})
+	c.R.Floor("E.pure", 5)
 	c.R.Floor("F9.truncate", 1)
 	c.R.Floor("F10.strip", 1)
 	c.R.Floor("F11.fresh", 1)
